@@ -17,7 +17,7 @@ type rtGen struct {
 	zones        []string
 }
 
-var allZones = []string{"nil", "UTC", "fixed:19800", "fixed:-12600", "America/New_York", "Europe/London", "Asia/Kolkata", "Australia/Lord_Howe"}
+var allZones = []string{"nil", "UTC", "fixed:19800", "fixed:-12600", "fixed:3600", "fixed:-18000", "fixed:28800", "America/New_York", "Europe/London", "Asia/Kolkata", "Australia/Lord_Howe"}
 
 var stopPool = []string{"A01N", "A01S", "M11N", "M11S", "M12N", "M16S", "M18X", "M11", "L03", "R20N", "", "635S"}
 
